@@ -211,26 +211,7 @@ impl PartialEq for Value {
         match (self, other) {
             (P(left), P(right)) => left == right,
             (C(List(left, _)), C(List(right, _))) => left == right,
-            (C(Tuple(left, _)), C(Tuple(right, _))) => {
-                if left.len() != right.len() {
-                    return false;
-                }
-                for (lk, lv) in left.iter() {
-                    let mut found = false;
-                    for (rk, rv) in right.iter() {
-                        if lk == rk {
-                            found = true;
-                            if lv != rv {
-                                return false;
-                            }
-                        }
-                    }
-                    if !found {
-                        return false;
-                    }
-                }
-                true
-            }
+            (C(Tuple(left, _)), C(Tuple(right, _))) => left == right,
             (F(left), F(right)) => left == right,
             (M(left), M(right)) => left == right,
             (T(_), T(_)) | (S(_), S(_)) => false,
